@@ -58,7 +58,12 @@ def option_reads(ctx):
     """Every read of an algebra option lies in a confirmed consumer (census; a new reader is reported, not guessed)."""
     from ..astx import private_helper_owners
     repo = ctx.repo
-    owners = {opt: private_helper_owners(repo, set(tab)) for opt, tab in OPTION_CONSUMERS.items()}
+    # a private helper is part of its callers; for simp_func and wrapper the four operator entry points all count as
+    # callers whose use of the option is decided semantically (C06.filter-sites, C02.call-pairing run every one of them
+    # with the option set and unset), so a helper shared between them is covered as well
+    from ..callsites import ENTRY_POINTS
+    owners = {opt: private_helper_owners(repo, set(tab) | (set(ENTRY_POINTS) if opt in ("simp_func", "wrapper") else set()))
+              for opt, tab in OPTION_CONSUMERS.items()}
     from ..astx import single_assignments, inline, params
 
     def outer(qual):
